@@ -164,7 +164,7 @@ func partStalls(c *check.Ctx, a *acc) {
 		return
 	}
 	type sc struct{ n, size int }
-	scs := []sc{{300, 10000}, {1500, 10000}, {4000, 2000}, {6000, 10000}}
+	scs := []sc{{300, 10000}, {1500, 10000}, {4000, 2000}, {6000, 10000}, {1500, 10000}, {3000, 4000}}
 	if !c.Quick() {
 		scs = append(scs, sc{20000, 10000}, sc{800, 10240}, sc{3000, 100}, sc{12000, 5000})
 	}
@@ -172,7 +172,14 @@ func partStalls(c *check.Ctx, a *acc) {
 	done, ended, blocked := 0, 0, 0
 	var samples []any
 	parallel(len(scs), 4, func(i int) {
-		p, err := c.WS.StartLab(bin, sut.LabOpts{Idle: 2 * time.Second, Name: "stall"})
+		// every second trial with the sync clock ticking (production: every 5 s, a
+		// 60th of the idle timeout): the staller's own main loop then has something
+		// to send into its full queue
+		opts := sut.LabOpts{Idle: 2 * time.Second, Name: "stall"}
+		if i%2 == 1 {
+			opts.Sync = 150 * time.Millisecond
+		}
+		p, err := c.WS.StartLab(bin, opts)
 		if err != nil {
 			c.Inconc(err.Error())
 			return
